@@ -16,6 +16,7 @@ Call(e) ==
     /\ Chk(e.raised \/ Len(e.results) # Len(e.members) \/ \A p, q \in 1..Len(e.members) : e.members[p] = e.members[q] => e.results[p] = e.results[q],
            "equal_members_get_equal_results_within_a_batch")
     /\ Chk(e.input_unchanged, "input_tensor_not_modified")
+    /\ Chk(e.earlier_result_unchanged, "result_of_an_earlier_call_not_overwritten")      \* a returned tensor is the caller's, not a buffer of the component
     /\ Chk(~e.raised \/ e.may_reject, "documented_single_sample_call_raised")
     /\ seen' = IF e.raised \/ Len(e.results) # Len(e.members) THEN seen
                ELSE [m \in 1..Len(seen) |-> IF seen[m] # 0 THEN seen[m]
